@@ -64,7 +64,7 @@ var pathExprs = []exprSpec{
 }
 
 var placements = []string{"direct", "grouping-local", "grouping-remote", "augment-from-user", "augment-into-user", "typedef-remote", "submodule", "grouping-unused", "grouping-nested-remote",
-	"uses-when-remote", "refine-must-remote", "deviate-add-must", "augment-when-remote", "typedef-unused"}
+	"uses-when-remote", "refine-must-remote", "deviate-add-must", "augment-when-remote", "typedef-unused", "submodule-noimport"}
 
 // carriers: must, when, leafref path, leafref path as a member of a union ("upath")
 var carriers = []string{"must", "when", "path", "upath"}
@@ -211,11 +211,28 @@ func build(c Case) (mods []*sg.Mod, definer string, binds map[string]string, use
 		m1.Nodes[0].Kids = append(m1.Nodes[0].Kids, leaf("carrier"))
 		m2.Deviations = []*sg.Deviation{{Target: "/m1:m1-top/m1:carrier", Deviates: []sg.Deviate{{Kind: "add", Stmts: []string{"must " + sg.Quote(e) + ";"}}}}}
 		definer, binds = "m2", bindsM2
-	case "submodule":
-		// written in a submodule of M1 that has its own import binding and the belongs-to prefix m1
+	case "submodule", "submodule-noimport":
+		// written in a submodule of M1 that has its own import binding and the belongs-to prefix m1; what the module
+		// itself (or another submodule included before) binds to the same prefixes must not matter
 		sub := &sg.Mod{Name: "m1-sub", Prefix: "m1", BelongsTo: "m1", Imports: []sg.Import{{Mod: "ma", Prefix: "x"}, {Mod: "mc", Prefix: "y"}},
 			Nodes: []*sg.Node{{Kind: "container", Name: "m1-sub-top", Kids: []*sg.Node{cn}}}}
 		m1.Includes = []string{"m1-sub"}
+		switch c.UserBinds {
+		case "other":
+			// the module binds the prefixes to other modules than its submodule does
+			m1.Imports = []sg.Import{{Mod: "mb", Prefix: "x"}, {Mod: "ma", Prefix: "y"}}
+		case "none":
+			m1.Imports = nil
+			// ... and a sibling submodule, included first, binds them differently
+			sib := &sg.Mod{Name: "m1-a-sib", Prefix: "m1", BelongsTo: "m1", Imports: []sg.Import{{Mod: "mb", Prefix: "x"}, {Mod: "ma", Prefix: "y"}}}
+			m1.Includes = []string{"m1-a-sib", "m1-sub"}
+			mods = append(mods, sib)
+		}
+		if c.Placement == "submodule-noimport" {
+			// the submodule imports nothing: the prefixes are unknown there whatever the module imports
+			sub.Imports = nil
+			binds = map[string]string{"m1": "urn:verif:m1", "": "urn:verif:m1"}
+		}
 		mods = append(mods, sub)
 		definer = "m1-sub"
 	}
